@@ -10,30 +10,35 @@ pub trait VxReadSeek: Sized {
     spec fn data(&self) -> Seq<u8>;
     spec fn pos(&self) -> int;
     spec fn log(&self) -> Seq<(int, int)>;
-    fn seek(&mut self, p: SeekFrom) -> (r: Result<u64, VxIoError>)
+    // history flag: some operation on this reader has returned an error
+    spec fn failed(&self) -> bool;
+    fn seek(&mut self, p: SeekFrom) -> (r: std::result::Result<u64, VxIoError>)
         ensures
             final(self).data() == old(self).data(),
             final(self).log() == old(self).log(),
+            old(self).failed() ==> final(self).failed(), r is Err ==> final(self).failed(),
             r is Ok ==> (p matches SeekFrom::Start(x) ==> final(self).pos() == x);
 }
 
 // `ReadValueFunction: Fn(&mut R) -> Result<Value, io::Error>`
 pub trait VxReadValueFn<R: VxReadSeek, Value> {
     spec fn decode(&self, data: Seq<u8>, off: int) -> Value;
-    fn call(&self, reader: &mut R) -> (r: Result<Value, VxIoError>)
+    fn call(&self, reader: &mut R) -> (r: std::result::Result<Value, VxIoError>)
         ensures
             final(reader).data() == old(reader).data(),
             final(reader).log() == old(reader).log().push((old(reader).pos(), size_of::<Value>() as int)),
+            old(reader).failed() ==> final(reader).failed(), r is Err ==> final(reader).failed(),
             r matches Ok(v) ==> v == self.decode(old(reader).data(), old(reader).pos())
                 && final(reader).pos() == old(reader).pos() + size_of::<Value>();
 }
 
 // utils::serialization_utils::read_u64
 #[verifier::external_body]
-pub fn read_u64<R: VxReadSeek>(reader: &mut R) -> (r: Result<u64, VxIoError>)
+pub fn read_u64<R: VxReadSeek>(reader: &mut R) -> (r: std::result::Result<u64, VxIoError>)
     ensures
         final(reader).data() == old(reader).data(),
         final(reader).log() == old(reader).log().push((old(reader).pos(), 8int)),
+        old(reader).failed() ==> final(reader).failed(), r is Err ==> final(reader).failed(),
         r matches Ok(v) ==> v == spec_u64_at(old(reader).data(), old(reader).pos())
             && final(reader).pos() == old(reader).pos() + 8,
 { unimplemented!() }
